@@ -102,6 +102,10 @@ func runC08(c *Ctx, r *Report) {
 			}
 		}
 	}
+	// shared C02.R11: "can be printed in every mode without panicking": a printer that takes element k of a
+	// statement list does so where the list is known to have it
+	r.Rule("C02.R11", "(shared with C02) a printer takes a constant-index element of a statement list only on the edge where the list has exactly that many elements (else { } has none)")
+	c.checkSingleStatementAccess(r, "C02.R11")
 	r.Rule("C08.R1", "nil discipline: in every parser function returning a node, block or node list, every path to `return nil` passes an error append, a continuationNeeded=true, the false edge of expectPeek, the true edge of a continuationNeeded test, or the nil edge of a result of another parser function that obeys this rule (one named exception: parseExpression when the peek token is =>)")
 	r.Rule("C08.R2", "progress: every loop of the lexer advances the position on every cycle and has an exit that is taken on byte 0 (predicates evaluated at 0); every loop of the parser shifts a token on every cycle and, evaluated with cur=peek=end-of-file (and end-of-line), cannot complete a cycle")
 	r.Rule("C08.R3", "clamped error rendering: every strings.Repeat count in the front end is proven non-negative (max(0,..) or a dominating test); CurrentLine slices the input with clamped bounds")
